@@ -136,7 +136,7 @@ def rule_MP2(rep, prog):
                 "would return before all iterations finished (path %s)" % (bad[0] if bad else None), sample={"waits": len(wait), "exit_paths": len(res)})
     dec = [i for i in fn.all_insts() if i.op == "atomicrmw" and "da_thr_cnt" in prog.fields(i)]
     fr = calls_named(fn, "_dispatch_continuation_free")
-    rep.require(rid, len(dec) == 1 and dec[0].d["rmw"] == "sub" and ord_has_release(dec[0].d["ord"]) and bool(fr), fn.file, fn.name, "thr-cnt-free",
+    rep.require(rid, len(dec) >= 1 and all(d_.d["rmw"] == "sub" and ord_has_release(d_.d["ord"]) and any(fn.inst_reaches(d_, f_) for f_ in fr) for d_ in dec), fn.file, fn.name, "thr-cnt-free",
                 "the apply context must be freed by whoever drops da_thr_cnt to zero (release)", sample={"dec": len(dec), "free": len(fr)})
     fn = prog.fn("dispatch_apply_f")
     rep.saw(fn)
